@@ -90,18 +90,19 @@ type Solver struct {
 	quickMs    int // per-query budget of the race stages
 	fullMs     int // last-resort budget
 	sem        chan struct{}
-	mu         sync.Mutex
+	mu         *sync.Mutex
 	perSolver  map[string]int
 	solverSecs float64
 	fastOnly   bool
 	nfile      int64
 	maxCubes   int
 	lastResort bool // run the final full-budget race (thorough tier)
+	slowApplied bool
 }
 
 func newSolver(dir string, seed, fullMs int, par int) *Solver {
 	os.MkdirAll(dir, 0o755)
-	return &Solver{dir: dir, seed: seed, quickMs: 2500, fullMs: fullMs, sem: make(chan struct{}, par), perSolver: map[string]int{}, maxCubes: 40}
+	return &Solver{dir: dir, seed: seed, quickMs: 2500, fullMs: fullMs, sem: make(chan struct{}, par), perSolver: map[string]int{}, maxCubes: 40, mu: &sync.Mutex{}}
 }
 
 func (ex *Exec) preludeText(o *Obl, relaxed bool) (string, bool) {
@@ -318,6 +319,12 @@ func (s *Solver) solve(ex *Exec, o *Obl) *Verdict {
 	v := &Verdict{Obl: o}
 	t0 := time.Now()
 	defer func() { v.Seconds = time.Since(t0).Seconds() }()
+	if o.Slow && !s.slowApplied {
+		s2 := *s
+		s2.quickMs = s.quickMs * 6
+		s2.slowApplied = true
+		return s2.solve(ex, o)
+	}
 	lam := ex.usesLambda
 	all := []int{0, 1, 2}
 	zs := []int{0, 1}
